@@ -430,8 +430,14 @@ get_call_str(const string &container, const vector_string &pexprs) const {
     CPPType *param_type = _parameters[_first_true_parameter]._remap->get_orig_type();
     CPPArrayType *array_type = param_type->as_array_type();
     if (array_type != nullptr) {
-      call << "std::copy(" << expr << ", " << expr << " + " << *array_type->_bounds << ", ";
-      paren_close = true;
+      // Copy from the value that was passed in to the member, not the other
+      // way around.
+      ostringstream value;
+      _parameters[_first_true_parameter]._remap->pass_parameter(value,
+                      get_parameter_expr(_first_true_parameter, pexprs));
+      call << "std::copy(" << value.str() << ", " << value.str() << " + "
+           << *array_type->_bounds << ", " << expr << ")";
+      return call.str();
     }
     else if (TypeManager::is_pointer_to_PyObject(param_type)) {
       call << "Dtool_Assign_PyObject(" << expr << ", ";
